@@ -4,13 +4,21 @@ Tie: metamorphic stream `laws`: both sides of each law are evaluated by the *sam
 monitor on the same trace and must give identical signals; operands are random formulas.
 Monitors: discrete offline (all laws), discrete online (the past laws), dense offline and
 dense online (laws without since/until expansion) — the dense ones through harness/dense.py.
+Stream `laws-decimal`: the law instances that write a bound, on the discrete monitors with a decimal sampling period
+(0.1 s, 0.05 ms, 100 ms, ...) and every bound written as a decimal duration with a unit.
 """
+from decimal import Decimal
+from fractions import Fraction
+
 from .. import common, formula as F, impl, disc
 from ..engine import Violation, Ctx
 
 RULE = ("for each law instance: operands p,q = random formulas (depth<=3), random bounds a<=b, c<=d in 0..4, trace length "
         "1..12 (discrete) / piecewise-constant signals with unaligned break-points (dense); both sides evaluated by the same "
-        "monitor. distinct by (law, lhs text, data, monitor); non-trivial when the common signal is not constant +-inf.")
+        "monitor. distinct by (law, lhs text, data, monitor); non-trivial when the common signal is not constant +-inf. "
+        "laws-decimal (60 / 500 instances groups): same instances with bounds 0..4 periods written as exact decimal durations in a "
+        "random unit, sampling period drawn from decimal fractions and multiples of s/ms/us/ns, trace length 3..14, monitors "
+        "offline / online / pastified; failing traces are shrunk.")
 EXPLANATION = ("theorems: the nine laws as equalities of rho for all operands, bounds and traces (C18_not_ev_bounded, "
                "C18_not_once_bounded, C18_not_once, C18_not_ev, C18_implies, C18_ev_ev, C18_once_once, C18_since_expansion, "
                "C18_until_expansion), transferred to the discrete offline and online monitors (C18_offline, C18_online). "
@@ -18,6 +26,58 @@ EXPLANATION = ("theorems: the nine laws as equalities of rho for all operands, b
 ASSUMPTIONS = ["bounded linear order (no NaN)", "dense time: validated by the metamorphic stream; theorems are discrete-time"]
 
 VARS = ["a", "b", "c"]
+
+# ---- stream `laws-decimal`: the same laws when the sampling period is a decimal fraction (0.1 s, 0.05 ms, ...) and the bounds are
+# written as decimal durations with units.  The formulas keep their bounds as whole numbers of sampling periods (so a+c and b+d
+# are exact); only the rendering differs: bound k is written as the exact decimal text of k * period in some unit.
+NS = {"s": 10 ** 9, "ms": 10 ** 6, "us": 10 ** 3, "ns": 1}
+UNITS = ["s", "ms", "us", "ns"]
+DEC_PERIODS = ["0.1", "0.1", "0.2", "0.05", "0.01", "0.001", "0.3", "0.7", "1.1", "2.5", "0.5", "0.25", "100", "10", "1"]
+
+
+def dec(q):
+    """Exact decimal text (no exponent) of a Fraction whose denominator divides a power of ten."""
+    q = Fraction(q)
+    s = format(Decimal(q.numerator) / Decimal(q.denominator), "f")
+    if Fraction(Decimal(s)) != q:
+        raise common.HarnessError("not a finite decimal: %s" % q)
+    return s
+
+
+def period_ns(cfg):
+    return Fraction(Decimal(cfg["period"])) * NS[cfg["punit"]]
+
+
+def gen_sampling(rng):
+    """{"period": decimal text, "punit", "unit" (default unit of the specification), "bunit" (unit the bounds are written in),
+    "suffix" (the unit is written after every bound; it may be left out only when it is the default unit)}.  Only periods that are
+    a whole number of ns and that set_sampling_period() receives exactly (the double nearest to the decimal text, times the
+    ns of its unit, is the period in ns) - the configurations in which every rendered bound is a multiple of the period."""
+    while True:
+        period, punit = rng.choice(DEC_PERIODS), rng.choice(UNITS)
+        pns = Fraction(Decimal(period)) * NS[punit]
+        if pns.denominator != 1 or pns <= 0:
+            continue
+        per = int(Decimal(period)) if Decimal(period) == int(Decimal(period)) else float(period)
+        if Fraction(per * NS[punit]) != pns:
+            continue
+        unit = punit if rng.random() < 0.5 else rng.choice(UNITS)
+        bunit = rng.choice([unit, punit, rng.choice(UNITS)])
+        return {"period": period, "punit": punit, "unit": unit, "bunit": bunit,
+                "suffix": True if bunit != unit else rng.random() < 0.5}
+
+
+def bound_text(cfg):
+    pns, u = period_ns(cfg), cfg["bunit"]
+    return lambda k: dec(k * pns / NS[u]) + (u if cfg["suffix"] or u != cfg["unit"] else "")
+
+
+def sampling_kw(cfg, n):
+    p = Decimal(cfg["period"])
+    per = int(p) if p == int(p) else float(p)
+    pns = period_ns(cfg)
+    # time stamps: sample i at i periods, in the default unit of the specification
+    return dict(unit=cfg["unit"], sampling=(per, cfg["punit"]), time=[float(i * pns / NS[cfg["unit"]]) for i in range(n)])
 
 
 def laws(rng, g, past):
@@ -56,14 +116,21 @@ def laws(rng, g, past):
     return out
 
 
-def eval_side(monitor, f, data, n, hist=None):
-    text = "out = " + F.to_text(f)
+def side_text(f, cfg=None):
+    return "out = " + (F.to_text(f, bound_text(cfg)) if cfg else F.to_text(f))
+
+
+def eval_side(monitor, f, data, n, hist=None, cfg=None):
+    text = side_text(f, cfg)
     vs = sorted(data)
+    kw = sampling_kw(cfg, n) if cfg else {}
     if monitor == "offd":
-        o = impl.eval_offline_discrete(text, vs, data, n)
+        o = impl.eval_offline_discrete(text, vs, data, n, **kw)
         return o if o[0] != "ok" else ("ok", [p[1] for p in o[1]])
     if monitor == "past":
-        return impl.run_online_discrete(text, vs, data, n, pastify=True)
+        return impl.run_online_discrete(text, vs, data, n, pastify=True, **kw)
+    if cfg:
+        return impl.run_online_discrete(text, vs, data, n, **kw)
     if monitor == "ond-reset" and hist:
         # the monitor object is reused: a history, reset(), then the trace
         def go():
@@ -78,14 +145,19 @@ def eval_side(monitor, f, data, n, hist=None):
     return impl.run_online_discrete(text, vs, data, n)
 
 
-def check_instance(ctx, monitor, name, lhs, rhs, data, n, hist=None):
-    l = eval_side(monitor, lhs, data, n, hist)
-    r = eval_side(monitor, rhs, data, n, hist)
-    rep = {"history": hist, "law": name, "monitor": monitor, "lhs": "out = " + F.to_text(lhs), "rhs": "out = " + F.to_text(rhs),
+def check_instance(ctx, monitor, name, lhs, rhs, data, n, hist=None, cfg=None):
+    l = eval_side(monitor, lhs, data, n, hist, cfg)
+    r = eval_side(monitor, rhs, data, n, hist, cfg)
+    rep = {"history": hist, "law": name, "monitor": monitor, "lhs": side_text(lhs, cfg), "rhs": side_text(rhs, cfg),
            "lhs_proto": F.to_proto(lhs), "rhs_proto": F.to_proto(rhs), "data": data, "n": n, "impl_lhs": l, "impl_rhs": r}
+    stream = "laws"
+    if cfg:
+        # bounds in the protos are numbers of sampling periods; the texts are what the monitors were given
+        rep["sampling"] = cfg
+        stream = "laws-decimal"
     if l[0] != "ok" or r[0] != "ok":
         return Violation("law %s on %s: evaluation raised %r / %r" % (name, monitor, l[1:] if l[0] != "ok" else "ok",
-                                                                      r[1:] if r[0] != "ok" else "ok"), rep, stream="laws")
+                                                                      r[1:] if r[0] != "ok" else "ok"), rep, stream=stream)
     if disc.nontrivial(l[1]):
         ctx.nontrivial.add((name, monitor, rep["lhs"], tuple((k, tuple(v)) for k, v in sorted(data.items()))))
     if any(x != x for x in l[1]) or any(x != x for x in r[1]):
@@ -94,7 +166,7 @@ def check_instance(ctx, monitor, name, lhs, rhs, data, n, hist=None):
     if not common.same_nums(l[1], r[1]):
         i = next((j for j in range(min(len(l[1]), len(r[1]))) if not common.num_eq(l[1][j], r[1][j])), min(len(l[1]), len(r[1])))
         return Violation("law %s fails on the %s monitor at sample %d: lhs %r, rhs %r (%s)" %
-                         (name, monitor, i, l[1][i] if i < len(l[1]) else None, r[1][i] if i < len(r[1]) else None, rep["lhs"]), rep, stream="laws")
+                         (name, monitor, i, l[1][i] if i < len(l[1]) else None, r[1][i] if i < len(r[1]) else None, rep["lhs"]), rep, stream=stream)
     return None
 
 
@@ -133,6 +205,71 @@ def explore(ctx, rng, count):
                     return
 
 
+def shrink_trace(fails, data, n, budget=40):
+    """Greedy: drop the last / first sample, then zero values, while the instance still fails.  `fails(data, n)` -> bool."""
+    steps, improved = 0, True
+    while improved and steps < budget:
+        improved = False
+        for cut in ("last", "first"):
+            if n > 1:
+                d2 = {k: (v[:-1] if cut == "last" else v[1:]) for k, v in data.items()}
+                steps += 1
+                if fails(d2, n - 1):
+                    data, n, improved = d2, n - 1, True
+                    break
+    for k in sorted(data):
+        for i in range(n):
+            if data[k][i] != 0.0 and steps < budget:
+                d2 = {kk: list(vv) for kk, vv in data.items()}
+                d2[k][i] = 0.0
+                steps += 1
+                if fails(d2, n):
+                    data = d2
+    return data, n
+
+
+def explore_decimal(ctx, rng, count):
+    """Stream `laws-decimal`: the law instances of `laws` on the discrete monitors when the sampling period is a decimal fraction
+    (or a multiple) of a unit and every bound is written as a decimal duration with a unit: eventually[0.1s,0.2s] eventually[0s,0.2s] p
+    against eventually[0.1s,0.4s] p at a period of 0.1 s.  The bounds of the two sides are the same whole numbers of periods as in the
+    stream `laws` (the sums are formed on them), so both sides denote the formulas the law names."""
+    for _ in range(count):
+        monitor = rng.choice(["offd", "offd", "ond", "past"])
+        past = monitor != "offd"
+        allow = F.PAST_ONLY - {"fn", "iffxor"} if past else F.ALL_DISCRETE_OFFLINE - {"fn", "iffxor"}
+        g = F.Gen(rng, VARS, allow, max_bound=rng.choice([2, 3, 4]))
+        n = rng.randint(3, 14)
+        cfg = gen_sampling(rng)
+        ctx.count("sampling:%s%s" % (cfg["period"], cfg["punit"]))
+        for name, lhs, rhs in laws(rng, g, past):
+            if monitor == "past":
+                sib = ("tb1", rng.choice(["ev", "alw"]), rng.randint(0, 1), rng.randint(2, 4), g.formula(0))
+                op_ = rng.choice(["and", "or", "implies"])
+                if rng.random() < 0.5:
+                    lhs, rhs = ("b", op_, lhs, sib), ("b", op_, rhs, sib)
+                else:
+                    lhs, rhs = ("b", op_, sib, lhs), ("b", op_, sib, rhs)
+            if not any(x[0] in ("tb1", "tb2") for x in F.subformulas(lhs)):
+                continue            # no bound is written in this instance: it belongs to the stream `laws`
+            vs = sorted(set(F.variables(lhs)) | set(F.variables(rhs))) or ["a"]
+            data = F.gen_trace(rng, vs, n)
+            ctx.evaluations += 1
+            ctx.count("law-decimal:%s/%s" % (name, monitor))
+            v = check_instance(ctx, monitor, name, lhs, rhs, data, n, None, cfg)
+            if v is None:
+                ctx.traces_validated += 1
+                if sum(1 for s_ in ctx.samples if "sampling" in s_) < 2:
+                    ctx.sample({"law": name, "monitor": monitor, "lhs": side_text(lhs, cfg), "rhs": side_text(rhs, cfg),
+                                "sampling": cfg, "data": data}, limit=8)
+            else:
+                def fails(d2, n2):
+                    return check_instance(Ctx(ctx.id, ctx.tier, ctx.seed), monitor, name, lhs, rhs, d2, n2, None, cfg) is not None
+                d2, n2 = shrink_trace(fails, data, n)
+                ctx.violations.append(check_instance(Ctx(ctx.id, ctx.tier, ctx.seed), monitor, name, lhs, rhs, d2, n2, None, cfg) or v)
+                if len(ctx.violations) >= 3:
+                    return
+
+
 def replay(ctx, obj):
     if obj.get("monitor") in ("offc", "onc"):
         from .. import dense
@@ -140,12 +277,14 @@ def replay(ctx, obj):
     lhs, rhs = F.from_proto(obj["lhs_proto"]), F.from_proto(obj["rhs_proto"])
     data = {k: [float(x) for x in v] for k, v in obj["data"].items()}
     hist = {k: [float(x) for x in v_] for k, v_ in obj["history"].items()} if obj.get("history") else None
-    v = check_instance(Ctx(ctx.id, ctx.tier, ctx.seed), obj["monitor"], obj["law"], lhs, rhs, data, obj["n"], hist)
+    v = check_instance(Ctx(ctx.id, ctx.tier, ctx.seed), obj["monitor"], obj["law"], lhs, rhs, data, obj["n"], hist, obj.get("sampling"))
     return (v is None), (v.what if v else "both sides agree on the replayed case")
 
 
 def run(ctx):
     explore(ctx, ctx.subrng("laws"), ctx.budget(300, 3000))
+    if not ctx.violations:
+        explore_decimal(ctx, ctx.subrng("laws-decimal"), ctx.budget(60, 500))
     if not ctx.violations:
         try:
             from .. import dense
@@ -158,3 +297,5 @@ def run(ctx):
 
 def search(ctx):
     explore(ctx, ctx.subrng("search"), ctx.budget(400, 2500))
+    if not ctx.violations:
+        explore_decimal(ctx, ctx.subrng("search-decimal"), ctx.budget(150, 800))
